@@ -11,8 +11,8 @@ import jesse_env
 class C02(core.Check):
     pid = 'C02'
     unproved = [
-        "composition of minute_no_resting_hit and sorted_head_first_on_path into 'an order resting since before the minute is never left unfilled with its price inside the minute's range' needs the frame fact that hooks never change the price / symbol of an existing order and never re-activate it; that fact is checked by the whole-session correspondence and the missed-fill oracle only",
-        'fast simulator: which candidate is hit first after a re-selection (unsorted) - known finding C02-F1',
+        'fast simulator: the composition is proved for the normal simulator only; in a chunk the re-selection is not re-sorted (known finding C02-F1) and per-minute candidates are carried over, so only chunk_minute_no_resting_hit is proved there; the rest is decided by correspondence and the missed-fill oracle',
+        'that the minute candle handed to the loop is valid and that the registry lists every active order at the start of the minute (C05.active_registry at strategy steps) are hypotheses of resting_order_never_left_in_range',
     ]
     gen_keys = ['jesse/services/candle.py:split_candle', 'jesse/services/candle.py:candle_includes_price',
                 'jesse/modes/backtest_mode.py:_get_fixed_jumped_candle']
